@@ -3,6 +3,8 @@ package props
 import (
 	"bytes"
 	"fmt"
+	"go/ast"
+	"go/parser"
 	"go/scanner"
 	"go/token"
 	"strings"
@@ -25,13 +27,13 @@ func init() {
 	core.Register(&core.Prop{
 		ID:    "C03",
 		Level: "model_checking",
-		Rule: "choice-tree exploration, NOT canonicalised: every corpus template x <=1 insertion from the 11-letter whitespace+comment alphabet x 6 whole-file transforms (identity, CRLF, BOM, tabs->spaces, indentation stripped, CRLF+BOM), " +
+		Rule: "choice-tree exploration, NOT canonicalised: every corpus template and every file of the non-canonical corpus (non-canonical number literals, stray semicolons, unsorted import groups, redundant parentheses) x <=1 insertion from the 11-letter whitespace+comment alphabet x 6 whole-file transforms (identity, CRLF, BOM, tabs->spaces, indentation stripped, CRLF+BOM), " +
 			"and x <=2 insertions from {/*c*/, // c, newline} (thorough: <=2 from the full alphabet, <=3 from the small one on small templates); every candidate go/parser accepts is decorated and printed (by a fresh Restorer and by one whose FileSet already holds another file: same text); " +
 			"oracle: output parses, token stream (kinds + identifier/literal text, all semicolons by kind, separators before closing delimiters dropped) == that of gofmt(input), comments == input's comments in order modulo whitespace; " +
 			"every template with a //line directive carrying each line number 1..lines+2; plus 7 hanging-indent contexts x every sequence of <=3 (thorough 4) comment lines at 4 indentations x {no blank line, blank line} x {LF, CRLF, spaces}; state = candidate text; non-trivial = candidate that is not already gofmt-canonical",
 		Assumptions: []string{"go/scanner token stream defines 'token sequence'", "comment texts compared with all whitespace removed (the property allows whitespace to differ)"},
 		Units: func(tier string) []string {
-			u := gapUnits(gen.Templates(), c03Shards)
+			u := gapUnits(c03Templates(), c03Shards)
 			for _, h := range c03Hanging {
 				u = append(u, "hanging/"+h.Name)
 			}
@@ -42,6 +44,12 @@ func init() {
 			return checkC03(decodeGap(c).Src)
 		},
 	})
+}
+
+// c03Templates: the canonical corpus plus files that are valid Go but not gofmt's output (number literals
+// in non-canonical spelling, stray semicolons, unsorted import groups, redundant parentheses)
+func c03Templates() []gen.Template {
+	return append(append([]gen.Template{}, gen.Templates()...), gen.Load("noncanonical.txt")...)
 }
 
 func applyTransform(src, tr string) string {
@@ -121,12 +129,12 @@ func runC03Hanging(ctx *core.Ctx, h int) {
 }
 
 func runC03(ctx *core.Ctx, unit int) {
-	if n := len(gen.Templates()) * c03Shards; unit >= n {
+	if n := len(c03Templates()) * c03Shards; unit >= n {
 		runC03Hanging(ctx, unit-n)
 		return
 	}
 	ti, shard := splitUnit(unit, c03Shards)
-	t := gen.Templates()[ti]
+	t := c03Templates()[ti]
 	eval := func(cand string, ins []gen.Ins, variant string) {
 		ctx.Count("candidates", 1)
 		if !gen.Parses(cand) {
@@ -235,6 +243,43 @@ func c03Tokens(src string) (toks []c03Tok, comments []string, ok bool) {
 	return out2, comments, nerr == 0
 }
 
+// importOrder is the sequence of import paths as written.
+func importOrder(src string) string {
+	f, err := parser.ParseFile(token.NewFileSet(), "", src, parser.ImportsOnly)
+	if err != nil {
+		return "?"
+	}
+	var s []string
+	for _, is := range f.Imports {
+		s = append(s, is.Path.Value)
+	}
+	return strings.Join(s, " ")
+}
+
+// dropImportComments returns the comment texts (whitespace removed) outside import declarations.
+func dropImportComments(src string) []string {
+	fset := token.NewFileSet()
+	f, err := parser.ParseFile(fset, "", src, parser.ParseComments)
+	if err != nil {
+		return []string{"?" + src}
+	}
+	var out []string
+	for _, g := range f.Comments {
+		for _, c := range g.List {
+			inside := false
+			for _, d := range f.Decls {
+				if gd, ok := d.(*ast.GenDecl); ok && gd.Tok == token.IMPORT && c.Pos() >= gd.Pos() && c.End() <= gd.End() {
+					inside = true
+				}
+			}
+			if !inside {
+				out = append(out, stripWS(c.Text))
+			}
+		}
+	}
+	return out
+}
+
 func checkC03(src string) core.Outcome {
 	var out string
 	var err error
@@ -315,6 +360,13 @@ func checkC03(src string) core.Outcome {
 			if again, err := gofmt(out); err == nil && again == ref && commentSubsequence(dropDirectives(outComments), dropDirectives(refComments)) {
 				return core.Outcome{Known: "C03-F2-directive-order-in-doc-comment", Desc: desc("directive line not moved to the end of the doc comment")}
 			}
+		}
+		// known: in an import group that gofmt has to re-sort, a comment written in front of a spec stays
+		// where it was instead of travelling with its spec (dst prints first and sorts afterwards, gofmt
+		// sorts first). Only comments inside import declarations are displaced.
+		if core.IsKnown("C03-F5-comment-before-spec-in-resorted-import-group") && importOrder(src) != importOrder(ref) &&
+			commentSubsequence(dropImportComments(out), dropImportComments(ref)) {
+			return core.Outcome{Known: "C03-F5-comment-before-spec-in-resorted-import-group", Desc: desc("comment in front of an import spec did not travel with the spec when the group was sorted")}
 		}
 		return core.Outcome{Key: "comments-reordered", Desc: desc(fmt.Sprintf("comment order differs from gofmt's: gofmt(input) has %q, output has %q", refComments, outComments))}
 	}
